@@ -163,3 +163,91 @@ func validDelBatches(d, b int) []delBatch {
 	mk(full, seq(func(i int) int64 { return []int64{int64(n - 1), int64(2*n - 1)}[i%2] }), false) // mixed
 	return out
 }
+
+// nearValidInsBatches: batches that are INVALID by the statement but that a circuit
+// with a weakened range/emptiness/threading check would accept: positions past the
+// end with sibling paths of the wrapped-around leaf and the post-root such a
+// circuit would compute. Hashes are the canonical ones.
+func nearValidInsBatches(d, b int) []insBatch {
+	n := 1 << uint(d)
+	var out []insBatch
+	mk := func(t *ref.Tree, start int64, comms []*big.Int, skipEmptiness bool) {
+		cur := t.Clone()
+		bt := insBatch{Depth: d, Start: fmt.Sprint(start), Pre: t.Root().String(), Comms: strs(comms)}
+		for i, cm := range comms {
+			pos := int((start + int64(i)) % int64(n))
+			bt.Proofs = append(bt.Proofs, strs(cur.Proof(pos)))
+			cur.Set(pos, cm)
+		}
+		bt.Post = cur.Root().String()
+		h, ok := bt.refHash(ref.BN)
+		if !ok {
+			return
+		}
+		bt.Hash = h.String()
+		if valid, _ := ref.BN.Insertion(d, bigs(bt.Pre), bigs(bt.Start), ints(bt.Comms), ints2(bt.Proofs), bigs(bt.Post)); !valid {
+			out = append(out, bt)
+		}
+	}
+	comms := make([]*big.Int, b)
+	for i := range comms {
+		comms[i] = ref.B(int64(i + 3))
+	}
+	empty := ref.NewTree(ref.BN, d)
+	mk(empty, int64(n), comms, false)        // first position one past the end (aliases leaf 0)
+	mk(empty, int64(n-1), comms, false)      // batch runs past the end when b >= 2
+	mk(empty, int64(2*n-b), comms, false)    // top of the one-bit-too-wide range
+	mk(empty, int64(2*n), comms, false)      // two bits too high
+	occ := ref.NewTree(ref.BN, d)
+	occ.Set(0, ref.B(9))
+	mk(occ, 0, comms, true) // writes over an occupied leaf with the path that would authenticate it if emptiness were not checked
+	return out
+}
+
+func nearValidDelBatches(d, b int) []delBatch {
+	n := 1 << uint(d)
+	full := ref.NewTree(ref.BN, d)
+	for i := 0; i < n; i++ {
+		full.Set(i, ref.B(int64(i+11)))
+	}
+	var out []delBatch
+	// mk builds a batch in which slot 0 uses index idx0 but presents the genuine value/path of
+	// leaf idx0 mod 2^d, and claims the post root obtained by really deleting that leaf
+	mk := func(idx0 int64, deleteAliased bool) {
+		cur := full.Clone()
+		bt := delBatch{Depth: d, Pre: full.Root().String()}
+		for i := 0; i < b; i++ {
+			ix := idx0
+			if i > 0 {
+				ix = int64(n + i%n) // remaining slots: ordinary padding
+			}
+			pos := int(ix % int64(n))
+			bt.Idx = append(bt.Idx, fmt.Sprint(ix))
+			if i == 0 {
+				bt.Items = append(bt.Items, cur.Leaves[pos].String())
+				bt.Proofs = append(bt.Proofs, strs(cur.Proof(pos)))
+				if deleteAliased {
+					cur.Set(pos, ref.B(0))
+				}
+			} else {
+				bt.Items = append(bt.Items, "0")
+				bt.Proofs = append(bt.Proofs, strs(make0(d)))
+			}
+		}
+		bt.Post = cur.Root().String()
+		h, ok := bt.refHash(ref.BN)
+		if !ok {
+			return
+		}
+		bt.Hash = h.String()
+		if valid, _ := ref.BN.Deletion(d, bigs(bt.Pre), ints(bt.Idx), ints(bt.Items), ints2(bt.Proofs), bigs(bt.Post)); !valid {
+			out = append(out, bt)
+		}
+	}
+	mk(int64(n+1), true)    // padding index carrying a genuine membership proof: the leaf must NOT be deleted
+	mk(int64(2*n+1), true)  // index one bit too high, aliasing leaf 1
+	mk(int64(2*n+1), false) // the same, claiming an unchanged root
+	mk(int64(4*n), true)
+	mk(1, false) // genuine deletion presented, but the claimed post-root is the unchanged root
+	return out
+}
